@@ -40,6 +40,8 @@ def gen_dataset(r, dmax=6, kind=None, tuples=True, unknown=False, big=False, tin
     desc["unknown"] = r.choice([0.1, 0.3, 0.5])
   if r.random() < 0.3:
     desc["perm"] = 1
+  if r.random() < 0.35:
+    desc["chunk_ids"] = r.choice(["onebased", "gaps", "shuffled", "gaps_shuffled"])
   return desc
 
 
